@@ -75,6 +75,7 @@ type FillTransform struct {
 		offset int64
 	}
 	prevWindow prevWindow
+	groupStart int // first row of the tag group being filled: read positions never look before it
 
 	fillLogger *logger.Logger
 
@@ -366,8 +367,21 @@ func (trans *FillTransform) sendChunk() {
 }
 
 func (trans *FillTransform) updatePrevValues(c Chunk) {
+	// the values carried into the next chunk belong to the last series of this chunk: the last non-nil
+	// value of a column counts only if it lies in the last tag group, and what an earlier chunk left is
+	// kept only if that group continues the series of the earlier chunk
+	if c.TagLen() == 0 {
+		return
+	}
+	lastTagStart := c.TagIndex()[c.TagLen()-1]
+	continued := lastTagStart == 0 && trans.prevWindow.name == c.Name() &&
+		bytes.Equal(trans.prevWindow.tags.Subset(nil), c.Tags()[c.TagLen()-1].Subset(nil))
 	for i := range trans.updatePrevValuesFunc {
-		trans.updatePrevValuesFunc[i](c, trans.prevValues, i)
+		if vs, ve := c.Column(i).GetRangeValueIndexV2(lastTagStart, c.Len()); vs < ve {
+			trans.updatePrevValuesFunc[i](c, trans.prevValues, i)
+		} else if !continued {
+			trans.prevValues[i] = nil
+		}
 	}
 }
 
@@ -381,6 +395,9 @@ func (trans *FillTransform) processInterval(
 			if trans.prevWindow.name == c.Name() && bytes.Equal(trans.prevWindow.tags.Subset(nil),
 				c.Tags()[tagIndexAt].Subset(nil)) {
 				trans.updatePrevChunk(c)
+			} else {
+				// what is left of another series must not be used as the previous value of this one
+				trans.prevWindow.value = nil
 			}
 			fromTime, _ := trans.opt.Window(c.TimeByIndex(intervalIndex))
 			for {
@@ -393,6 +410,11 @@ func (trans *FillTransform) processInterval(
 				break
 			}
 			trans.prevChunk = c
+			// the first row of a group has no earlier row of its own series in this chunk: a null in it is
+			// filled from the carried window (if the series continues), never from the previous group's rows
+			for i := range trans.prevReadAts {
+				trans.prevReadAts[i] = intervalIndex
+			}
 
 			// Record real data
 			trans.appendCall(c, c.IntervalIndex()[intervalIndexAt])
@@ -416,6 +438,8 @@ func (trans *FillTransform) processInterval(
 			for i := range trans.prevReadAts {
 				trans.prevReadAts[i] = intervalIndex - 1
 				trans.inputReadAts[i] = intervalIndex
+				// the previous value of a column is its last non-null value in this group
+				trans.updatePrevReadAt(i)
 			}
 
 			trans.nextWindow()
@@ -633,6 +657,7 @@ func (trans *FillTransform) compute(c Chunk) {
 	newChunk.SetName(c.Name())
 	for tagIndexAt, tagStartIndex := range c.TagIndex() {
 		trans.prevChunk = nil
+		trans.groupStart = tagStartIndex
 		tagIndex = append(tagIndex, newChunk.Len())
 		trans.newWindow(c, tagIndexAt, tagStartIndex)
 		if tagIndexAt == c.TagLen()-1 {
@@ -645,6 +670,15 @@ func (trans *FillTransform) compute(c Chunk) {
 
 		if isStopFillTask {
 			break
+		}
+
+		if tagIndexAt == c.TagLen()-1 {
+			// the last group has no following interval that would make processInterval point the
+			// read positions at the group's last row: a group of one row would be filled from the previous group
+			for i := range trans.prevReadAts {
+				trans.prevReadAts[i] = tagEndIndex - 1
+				trans.inputReadAts[i] = -1
+			}
 		}
 
 		trans.updatePrevAndInputAts(c)
@@ -671,7 +705,7 @@ func (trans *FillTransform) compute(c Chunk) {
 
 func (trans *FillTransform) updatePrevReadAt(i int) {
 	if trans.prevChunk.Column(i).IsNilV2(trans.prevReadAts[i]) {
-		start, end := trans.prevChunk.Column(i).GetRangeValueIndexV2(0, trans.prevReadAts[i])
+		start, end := trans.prevChunk.Column(i).GetRangeValueIndexV2(trans.groupStart, trans.prevReadAts[i])
 		if start < end {
 			if trans.prevChunk.Column(i).NilCount() == 0 {
 				trans.prevReadAts[i] = end - 1
